@@ -1,5 +1,5 @@
 """Texts for MANIFEST.json."""
-HOOK_COMMITS = ["3a899bd", "d84b5a0", "f4cc99e"]
+HOOK_COMMITS = ["3a899bd", "d84b5a0", "f4cc99e", "d898578"]
 
 NOTES = ("All checks: ./check <id> --tier quick|thorough. Technique family: machine-checked proof in Lean 4 over executable models, "
          "tied to the source by a per-run correspondence (see DESIGN.md). Properties listed under not_applicable are not yet "
@@ -94,6 +94,22 @@ META = {
                  "durable-state invariant (C03); in this model it is the content attached to the epoch, and it is what the end-to-end "
                  "runs check against the replay."),
         "technique": "Lean 4 proof over persisted-epoch model + I/O-equality on retention functions + end-to-end rollback differential",
+    },
+    "C03": {
+        "text": ("Lean model of the durable state (snapshots recorded in root.bolt with the files they name, files complete on disk, "
+                 "highest acknowledged epoch) and of the steps that change it (file written, bolt commit, acknowledgement, snapshot "
+                 "purge, file removal) with the protocol's side condition for each. Theorems for every trace and every crash "
+                 "instant: the invariant (named files exist complete, epochs strictly descend, every acknowledged batch is covered "
+                 "by the newest committed snapshot) is preserved by every step whose side condition holds and by a crash that "
+                 "destroys any unreferenced file; under it Open loads the newest committed snapshot, which covers everything "
+                 "acknowledged (crash_safe). Counter-examples show each side condition is needed. The real persister, purger and "
+                 "merger report their durable steps through verif hooks and each is checked against the side condition in Lean; a "
+                 "kill harness (named crash points, random instants, clean close; unreferenced files garbled) reopens the index and "
+                 "the Lean monitor of C04 judges the recovered contents: whole batches, everything acknowledged, never older."),
+        "design_ref": "DESIGN.md section 4, C03",
+        "note": ("partial: fsync/rename/bbolt atomicity are assumptions; the kill runs validate the model against the runtime. trusted: "
+                 "Lean kernel, Go harness, SIGKILL as crash model."),
+        "technique": "Lean 4 proof (durable-state invariant, crash_safe) + step monitoring of hooked durable events in Lean + kill/reopen differential judged by the Lean history monitor",
     },
     "C04": {
         "text": ("Two proved parts. (1) Snapshot algebra (Props/Snapshot.lean): every root the introducer can produce is the replay of "
